@@ -58,6 +58,30 @@ class Crash:
         self.msg = str(exc)[:200]
 
 
+def int_counts(arr):
+    """A direction sensor logged as raw integer counts (16-bit style full scale): int64 array, or None when some row
+    would round to an all-zero sample."""
+    top = float(np.max(np.abs(arr)))
+    if not (top > 0 and np.isfinite(top)):
+        return None
+    out = np.round(np.asarray(arr, dtype=float) * (30000.0 / top)).astype(np.int64)
+    if not np.all(np.any(out != 0, axis=1)):
+        return None
+    return out
+
+
+def typed_history(spec, gyr, acc, mag):
+    """The arrays as the application stores them: float64, or integer-typed ('int_am': accelerometer and magnetometer
+    as raw counts; 'int_all': the gyroscope too, rounded to whole rad/s -- physically coarse, but a legitimate int64
+    recording that every class must treat as it treats the same numbers in float64)."""
+    if spec.get('int_am') or spec.get('int_all'):
+        ia, im = int_counts(acc), int_counts(mag)
+        acc, mag = (acc if ia is None else ia), (mag if im is None else im)
+    if spec.get('int_all'):
+        gyr = np.round(np.asarray(gyr, dtype=float)).astype(np.int64)
+    return gyr, acc, mag
+
+
 class StreamTask:
     """A consumer fed one sample per call.  ``stride`` s > 1 models a subscriber running at a lower rate: it
     takes every s-th tick of the bus and its sampling period is s times the bus period."""
@@ -78,11 +102,13 @@ class StreamTask:
         self.first = 1 if self.kind.recursive else 0   # single-frame estimators also see tick 0
         self.pos = self.first            # next own sample to consume (bus tick = pos * stride)
         self.out = [None] * self.n_own   # per own sample: ndarray | Refusal | Crash | None
+        self.raw = [None] * self.n_own   # per own sample: the returned object itself
         self.q = None
         self.inst = None
         self.dead = False
         self.rng_before = {}             # own sample index -> library RNG state (RNG consumers only)
         self._bufs = None
+        self._ints = None
         self.q_mutations = []            # own samples at which the a-priori quaternion argument was modified in place
         self.dt_eff = C.effective_dt(self.p, self.dt)
 
@@ -105,7 +131,14 @@ class StreamTask:
         g = h.gyr[k] if 'g' in self.kind.sensors else None
         a = h.acc[self.key][k] if 'a' in self.kind.sensors else None
         m = h.mag[self.key][k] if 'm' in self.kind.sensors else None
-        if self.spec.get('reuse_buffers'):
+        if self.spec.get('int_am') or self.spec.get('int_all'):
+            # integer-typed recording (see typed_history)
+            if self._ints is None:
+                self._ints = typed_history(self.spec, h.gyr, h.acc[self.key], h.mag[self.key])
+            g = self._ints[0][k] if g is not None else None
+            a = self._ints[1][k] if a is not None else None
+            m = self._ints[2][k] if m is not None else None
+        if self.spec.get('reuse_buffers') and not (self.spec.get('int_am') or self.spec.get('int_all')):
             # an application that reads every sample into the same three preallocated buffers (driver style):
             # the objects handed to the library are identical from call to call, their contents are not
             if self._bufs is None:
@@ -135,6 +168,7 @@ class StreamTask:
                 self.q_mutations.append(j)
                 log.add('q-mutation', self.idx, j)
             self.out[j] = out_to_array(r)
+            self.raw[j] = r             # the object itself: an application may keep what it is handed
             if r is not None and self.kind.recursive:
                 # the application feeds what it was handed straight back (no defensive copy), as in the docs' loops
                 self.q = r if isinstance(r, np.ndarray) else self.out[j]
@@ -187,7 +221,8 @@ class BatchTask:
         h = self.hist
         if self.kind.uses_library_rng:
             self.rng_before = np.random.get_state()
-        self.result, self.obj = run_batch(self.kind, self.p, h.dt, self.dip, h.gyr, h.acc[self.key], h.mag[self.key])
+        gyr, acc, mag = typed_history(self.spec, h.gyr, h.acc[self.key], h.mag[self.key])
+        self.result, self.obj = run_batch(self.kind, self.p, h.dt, self.dip, gyr, acc, mag)
         log.add('batch', self.idx, self.result if isinstance(self.result, np.ndarray) else repr(type(self.result)))
         self.finished = True
 
